@@ -7,6 +7,7 @@ import (
 	"os"
 	"runtime"
 	"runtime/debug"
+	"runtime/pprof"
 	"sort"
 	"strconv"
 	"strings"
@@ -151,6 +152,7 @@ func cmdRun(args []string) int {
 	var rc runConfig
 	rc.flags(fs)
 	hs := fs.String("h", "", "harnesses, comma separated (pkg.Func)")
+	cpuprof := fs.String("cpuprofile", "", "write a CPU profile")
 	show := fs.Int("show", 5, "failures to print")
 	dump := fs.Int("dump", 0, "print the replay records (JSON) of the first N failures")
 	fs.Parse(args)
@@ -164,6 +166,11 @@ func cmdRun(args []string) int {
 		return 2
 	}
 	defer closeMachines(ms)
+	if *cpuprof != "" {
+		f, _ := os.Create(*cpuprof)
+		pprof.StartCPUProfile(f)
+		defer pprof.StopCPUProfile()
+	}
 	code := 0
 	for _, h := range strings.Split(*hs, ",") {
 		rep, err := e.Run(ms, h)
